@@ -221,7 +221,10 @@ func (c *layoutCase) render() (src string, model []string, decls [][]declRef) {
 				b.WriteString("\n")
 				blank()
 			case "c":
-				if r.Block {
+				if r.Block && len(r.Lines) >= 2 && id%2 == 0 {
+					// the tall style: the markers on lines of their own (the closing one at the margin)
+					b.WriteString(indent + "/*\n" + strings.Join(r.Lines, "\n") + "\n*/\n")
+				} else if r.Block {
 					b.WriteString(indent + "/* " + strings.Join(r.Lines, "\n") + " */\n") // continuation lines unindented: Text() keeps leading tabs
 				} else {
 					for _, l := range r.Lines {
